@@ -124,6 +124,54 @@ class UserFn:
         return f"<user fn {self.name}>"
 
 
+class TensorFn:
+    """an abstract callable on tensors (error_fn, reduce_fn, optimizer class ...): records its arguments and
+    returns impl(I, args, kwargs)"""
+
+    def __init__(self, name, impl):
+        self.name, self.impl, self.calls = name, impl, []
+
+    def tpv_call(self, I, args, kwargs):
+        r = self.impl(I, args, kwargs)
+        self.calls.append({"args": list(args), "kwargs": dict(kwargs), "result": r})
+        return r
+
+    def tpv_getattr(self, I, name):
+        if name == "__name__":
+            return self.name
+        from .interp import RaisedEx
+
+        raise RaisedEx("AttributeError", name)
+
+    def tpv_deepcopy(self, I, memo):
+        return self
+
+
+def rowwise_tensor_fn(name, out_rank1=True):
+    """E: [N, m] -> [N], row-wise uninterpreted (deterministic) function"""
+    fs = {}
+
+    def impl(I, args, kwargs):
+        x = lift(args[0])
+        m = x.shape[-1].concrete()
+        if m not in fs:
+            fs[m] = z3.Function(f"{name}_{m}", *([z3.RealSort()] * m + [z3.RealSort()]))
+        f = fs[m]
+        return Tensor(STensor(x.shape[:-1], lambda idx: f(*[zreal(x.at(list(idx) + [(c,) if m != 1 else ()])) for c in range(m)]), "real", name))
+
+    return TensorFn(name, impl)
+
+
+def scalar_tensor_fn(name):
+    """Rd: tensor -> fresh scalar tensor (0-d)"""
+
+    def impl(I, args, kwargs):
+        v = z3.Real(core.fresh_name(name))
+        return Tensor(STensor([], lambda idx: v, "real", name))
+
+    return TensorFn(name, impl)
+
+
 class RowFn(UserFn):
     """a user function that is ROW-WISE (assumption A8): out[r, c] = F_c(inputs[r, :]).
     Used for shape functions of domains, data functions, residuals, filters."""
@@ -178,8 +226,11 @@ class RowFn(UserFn):
                 if batch[pos] is None:
                     batch[pos] = d
                 elif not batch[pos].same(d):
-                    if not I.ctx.entails(batch[pos].size_term() == d.size_term()):
-                        raise Unsupported(f"row function {self.name}: arguments with different batch shapes")
+                    eqb = batch[pos].size_term() == d.size_term()
+                    if not I.ctx.entails(eqb):
+                        if not I.decide(eqb):
+                            # a row-wise user function on arguments with different numbers of rows fails (A8)
+                            raise RaisedEx("RuntimeError", f"{self.name}: arguments with different batch shapes", I.ctx.loc)
         batch = [d if d is not None else Dim([]) for d in batch]
         full_batch = batch
 
